@@ -3,7 +3,7 @@
 # usage: tools/baseline.sh [tree] ; prints number of stable tests that did not pass.
 TREE=${1:-/repo}
 OUT=$(mktemp /tmp/junit.XXXXXX.xml)
-cd "$TREE" && /venv/bin/python -m pytest -q -p no:cacheprovider --timeout=900 --continue-on-collection-errors -x -n 8 --junitxml=$OUT >/dev/null 2>&1
+cd "$TREE" && /venv/bin/python -m pytest -q -p no:cacheprovider --timeout=900 --continue-on-collection-errors --junitxml=$OUT >/dev/null 2>&1
 /venv/bin/python - "$OUT" <<'PY'
 import json,sys,xml.etree.ElementTree as ET
 stable=set(json.load(open('/root/.vp/BASELINE.json'))['stable_pass'])
